@@ -320,7 +320,11 @@ func c02Run(c *Ctx, t *c02Tables, mem *fastMem, e *aluEnc, base z80.States, d ui
 					mem.d[c02PC+e.IPos] = v
 				}
 				cpu.States = p
-				cpu.HALT = false
+				// every 8192nd Step starts with the halted indication still set from an earlier
+				// program (a host that re-points the same CPU object and single-steps): the
+				// instruction executes all the same
+				staleHALT := n&0x1fff == 0x0555
+				cpu.HALT = staleHALT
 				mem.writes = 0
 				if n&0xfff == 0x2aa {
 					// continue on a by-value copy of the CPU struct; the abandoned struct is
@@ -374,7 +378,7 @@ func c02Run(c *Ctx, t *c02Tables, mem *fastMem, e *aluEnc, base z80.States, d ui
 				// the number and order of bus accesses is C05's subject, not this property's:
 				// only the result, the flags, the operand's final value and the untouched
 				// registers are judged here
-				ok := got == exp && !cpu.HALT
+				ok := got == exp && (!cpu.HALT || staleHALT)
 				if ok && memOp {
 					ok = mem.d[c02Mem] == nv
 					if mem.rom {
@@ -550,9 +554,9 @@ func runC02(c *Ctx) {
 	c.R.Set("steps_displacement_sweep", dsweep)
 	c.R.Set("exhaustive", thorough)
 	if thorough {
-		c.R.Set("rule", "the complete cube A(256) x operand(256) x incoming F(256) through the real CPU.Step for every one of the 559 encodings (degenerate A x F where the operand register is A), plus all 256 displacements on a reduced value set for the indexed forms (also on z80.DumbMemory / z80.MapMemory handed to the CPU directly with the operand at 0005 / FFFA so that IX+d wraps); a pass for the memory forms where the operand cell keeps no write (ROM); every 4096th Step continues on a by-value copy of the CPU struct; oracle = pure functions from the reference model's ALU layer (definitional flags), masks for SCF/CCF and BIT on memory; whole States compared (so nothing else may change), memory operand's final value compared (the number of bus accesses is C05's subject). Every (encoding, A, operand, F, d) tuple is enumerated once, so distinct = evaluations by construction; all are non-trivial (each executes the operation under test)")
+		c.R.Set("rule", "the complete cube A(256) x operand(256) x incoming F(256) through the real CPU.Step for every one of the 559 encodings (degenerate A x F where the operand register is A), plus all 256 displacements on a reduced value set for the indexed forms (also on z80.DumbMemory / z80.MapMemory handed to the CPU directly with the operand at 0005 / FFFA so that IX+d wraps); a pass for the memory forms where the operand cell keeps no write (ROM); every 4096th Step continues on a by-value copy of the CPU struct, every 8192nd starts with the halted indication still set; oracle = pure functions from the reference model's ALU layer (definitional flags), masks for SCF/CCF and BIT on memory; whole States compared (so nothing else may change), memory operand's final value compared (the number of bus accesses is C05's subject). Every (encoding, A, operand, F, d) tuple is enumerated once, so distinct = evaluations by construction; all are non-trivial (each executes the operation under test)")
 	} else {
-		c.R.Set("rule", "complete cube A x operand x F for one representative encoding of each operation; for every other encoding all A x operand x 8 F values {00,FF,01,FE,10,02,D7,28}; all 256 displacements on a reduced value set for indexed forms (also on the bundled memory types directly, effective address wrapping); a pass for the memory forms where the operand cell keeps no write (ROM); every 4096th Step continues on a by-value copy of the CPU struct; oracle and comparison as in the thorough tier. Every tuple is enumerated once, so distinct = evaluations by construction")
+		c.R.Set("rule", "complete cube A x operand x F for one representative encoding of each operation; for every other encoding all A x operand x 8 F values {00,FF,01,FE,10,02,D7,28}; all 256 displacements on a reduced value set for indexed forms (also on the bundled memory types directly, effective address wrapping); a pass for the memory forms where the operand cell keeps no write (ROM); every 4096th Step continues on a by-value copy of the CPU struct, every 8192nd starts with the halted indication still set; oracle and comparison as in the thorough tier. Every tuple is enumerated once, so distinct = evaluations by construction")
 	}
 	c.R.Assume("oracle functions ref.Alu8/Inc8/Dec8/Rot/Bit/Daa/... are validated against the hardware CRCs by the self-test of the model that shares them")
 }
